@@ -24,6 +24,8 @@ import (
 	"time"
 	"unicode/utf8"
 
+	"google.golang.org/genproto/googleapis/api/annotations"
+	"google.golang.org/genproto/googleapis/api/serviceconfig"
 	"google.golang.org/grpc"
 	"google.golang.org/grpc/codes"
 	"google.golang.org/grpc/metadata"
@@ -40,6 +42,7 @@ type WsCase struct {
 	ID     int      `json:"id"`
 	Frames []string `json:"frames"`
 	Opts   []string `json:"opts"` // "stats", "streamInt"
+	Bind   string   `json:"bind"` // "" body "*"; "pathvar": /wp/{t}/bidi, field t comes from the path on the first message only; "respbody": response_body "sub", declared through the service config
 }
 
 type WsRecv struct {
@@ -60,6 +63,7 @@ type WsEv struct {
 	Case    int          `json:"case"`
 	Frames  []string     `json:"frames"`
 	Opts    []string     `json:"opts"`
+	Bind    string       `json:"bind"`
 	Status  int          `json:"status"`
 	Entered bool         `json:"entered"`
 	Recv    []WsRecv     `json:"recv"`
@@ -119,7 +123,30 @@ func wsRep(caseID, idx int) *dynamicpb.Message {
 	m := dynamicpb.NewMessage(repDesc())
 	m.Set(repDesc().Fields().ByName("id"), protoreflect.ValueOfString(fmt.Sprintf("h%d-r%d", caseID, idx)))
 	m.Set(repDesc().Fields().ByName("pad"), protoreflect.ValueOfBytes([]byte(filler(idx%7, idx))))
+	sub := dynamicpb.NewMessage(subDesc())
+	sub.Set(subDesc().Fields().ByName("s"), protoreflect.ValueOfString(fmt.Sprintf("h%d-r%d", caseID, idx)))
+	sub.Set(subDesc().Fields().ByName("i"), protoreflect.ValueOfInt32(int32(idx)))
+	m.Set(repDesc().Fields().ByName("sub"), protoreflect.ValueOfMessage(sub))
 	return m
+}
+
+func wsPathValue(caseID int) string { return fmt.Sprintf("pv%d", caseID) }
+
+// wsService: one bidi method; every binding comes from the service configuration (which replaces the annotation): the
+// WEBSOCKET binding with response_body, and as additional bindings the plain one and the one with a path variable.
+func wsService() (ServiceSpec, *serviceconfig.Service) {
+	prim := httpRule("POST", "/ws0/bidi")
+	prim.Body = "*"
+	svc := ServiceSpec{Name: "W", Methods: []MethodSpec{{Name: "Bidi", ClientStream: true, ServerStream: true, Rule: prim}}}
+	mk := func(path, resp string) *annotations.HttpRule {
+		r := httpRule("WEBSOCKET", path)
+		r.Body, r.ResponseBody = "*", resp
+		return r
+	}
+	cfg := mk("/wr/bidi", "sub")
+	cfg.Selector = "vs.W.Bidi"
+	cfg.AdditionalBindings = []*annotations.HttpRule{mk("/w/bidi", ""), mk("/wp/{t}/bidi", "")}
+	return svc, &serviceconfig.Service{Http: &annotations.Http{Rules: []*annotations.HttpRule{cfg}}}
 }
 
 func idxOf(s, pre string) int {
@@ -185,11 +212,12 @@ func (e *wsSessEnv) unary(ctx context.Context, full string, req *dynamicpb.Messa
 
 func newWsSessEnv(opts []string) (*wsSessEnv, error) {
 	e := &wsSessEnv{recs: map[string]*wsSessRec{}, done: map[string]chan string{}}
-	files, sds, err := BuildFiles([]ServiceSpec{testService()})
+	wsvc, wcfg := wsService()
+	files, sds, err := BuildFiles([]ServiceSpec{wsvc})
 	if err != nil {
 		return nil, err
 	}
-	mo := []larking.MuxOption{larking.FilesOption(files)}
+	mo := []larking.MuxOption{larking.FilesOption(files), larking.ServiceConfigOption(wcfg)}
 	for _, o := range opts {
 		switch o {
 		case "streamInt":
@@ -232,8 +260,14 @@ func (e *wsSessEnv) ServeHTTP(w http.ResponseWriter, r *http.Request) {
 func wsConcretise(c WsCase, r *rng) (writes [][]byte, sent map[int]*dynamicpb.Message, sizes []int) {
 	sent = map[int]*dynamicpb.Message{}
 	var rest []byte // the part of the open fragmented message not yet written
+	first := true
 	mk := func(i int) []byte {
 		m := wsReq(c.ID, i, r)
+		if first && c.Bind == "pathvar" {
+			// the first message a session delivers takes field t from the path: the client says the same in its body
+			m.Set(reqDesc().Fields().ByName("t"), protoreflect.ValueOfString(wsPathValue(c.ID)))
+		}
+		first = false
 		sent[i] = m
 		b, err := protojson.Marshal(m)
 		if err != nil {
@@ -353,7 +387,7 @@ func wsConcretise(c WsCase, r *rng) (writes [][]byte, sent map[int]*dynamicpb.Me
 	return
 }
 
-func parseWsSrv(caseID int, b []byte) []WsSrvFrame {
+func parseWsSrv(caseID int, bind string, b []byte) []WsSrvFrame {
 	out := []WsSrvFrame{}
 	for len(b) > 0 {
 		if len(b) < 2 {
@@ -387,6 +421,17 @@ func parseWsSrv(caseID int, b []byte) []WsSrvFrame {
 		b = b[off+n:]
 		switch {
 		case op == 1 && fin:
+			if bind == "respbody" { // the frame is the selected field of the reply, nothing else
+				sub := dynamicpb.NewMessage(subDesc())
+				if err := protojson.Unmarshal(p, sub); err != nil {
+					out = append(out, WsSrvFrame{K: "text"})
+					continue
+				}
+				idx := idxOf(sub.Get(subDesc().Fields().ByName("s")).String(), "-r")
+				want := wsRep(caseID, idx).Get(repDesc().Fields().ByName("sub")).Message().Interface()
+				out = append(out, WsSrvFrame{K: "text", ID: idx, Same: proto.Equal(sub, want)})
+				continue
+			}
 			rep := dynamicpb.NewMessage(repDesc())
 			if err := protojson.Unmarshal(p, rep); err != nil {
 				out = append(out, WsSrvFrame{K: "text"})
@@ -413,7 +458,7 @@ func parseWsSrv(caseID int, b []byte) []WsSrvFrame {
 }
 
 func (e *wsSessEnv) runSession(addr string, c WsCase, seed int64) WsEv {
-	ev := WsEv{Ev: "WsSession", Case: c.ID, Frames: c.Frames, Opts: c.Opts, Recv: []WsRecv{}, Srv: []WsSrvFrame{}, Sizes: []int{}}
+	ev := WsEv{Ev: "WsSession", Case: c.ID, Frames: c.Frames, Opts: c.Opts, Bind: c.Bind, Recv: []WsRecv{}, Srv: []WsSrvFrame{}, Sizes: []int{}}
 	if ev.Opts == nil {
 		ev.Opts = []string{}
 	}
@@ -442,7 +487,8 @@ func (e *wsSessEnv) runSession(addr string, c WsCase, seed int64) WsEv {
 	}
 	defer conn.Close()
 	conn.SetDeadline(time.Now().Add(15 * time.Second))
-	fmt.Fprintf(conn, "GET /w/bidi HTTP/1.1\r\nHost: verif.test\r\nX-Case: %s\r\nUpgrade: websocket\r\nConnection: Upgrade\r\nSec-WebSocket-Key: dGhlIHNhbXBsZSBub25jZQ==\r\nSec-WebSocket-Version: 13\r\n\r\n", cid)
+	upath := map[string]string{"": "/w/bidi", "pathvar": "/wp/" + wsPathValue(c.ID) + "/bidi", "respbody": "/wr/bidi"}[c.Bind]
+	fmt.Fprintf(conn, "GET "+upath+" HTTP/1.1\r\nHost: verif.test\r\nX-Case: %s\r\nUpgrade: websocket\r\nConnection: Upgrade\r\nSec-WebSocket-Key: dGhlIHNhbXBsZSBub25jZQ==\r\nSec-WebSocket-Version: 13\r\n\r\n", cid)
 	br := bufio.NewReader(conn)
 	res, err := http.ReadResponse(br, nil)
 	if err != nil {
@@ -482,7 +528,7 @@ func (e *wsSessEnv) runSession(addr string, c WsCase, seed int64) WsEv {
 				ev.ReadEnd = "other"
 			}
 		}
-		ev.Srv = parseWsSrv(c.ID, rest)
+		ev.Srv = parseWsSrv(c.ID, c.Bind, rest)
 	}
 	conn.Close()
 	select {
